@@ -417,3 +417,79 @@ def replay_op_reply(**args):
     except Exception as e:
         return True, '%s escaped from %s: %s' % (type(e).__name__, opname, e)
     return False, 'returned'
+
+
+# ------------------------------------------------------------------ H3b: every operation x every reply shape (selectors only)
+def _run_shape(*a):
+    if mode.REPLAY:
+        return _op_reply(*a)
+    from crosshair.core import realize
+    from crosshair.tracers import NoTracing
+    b = [realize(x) for x in a]
+    with NoTracing():
+        return _op_reply(*b)
+
+
+SHAPE_STR = [None, '', '0', '5', 'x', 'TRUE', 'false']
+SHAPE_CTX = [None, '', 'c']
+SHAPES = []
+for _kind in range(3):
+    for _n in range(3):
+        for _child in range(len(IRV_CHILD)):
+            if _kind == 0 and (_n or _child):
+                continue
+            for _rname in range(2):
+                SHAPES.append((_kind, _n, _child, _rname, 0, 0, 0))
+                if _child == 0 and _n <= 1:
+                    for _e in range(1, len(SHAPE_STR)):
+                        SHAPES.append((_kind, _n, _child, _rname, _e, 0, 0))
+                        SHAPES.append((_kind, _n, _child, _rname, 0, 0, _e))
+                    for _c in range(1, len(SHAPE_CTX)):
+                        SHAPES.append((_kind, _n, _child, _rname, 0, _c, 0))
+
+
+def _shape_args(op, sel):
+    kind, n, child, rname, esel, csel, psel = SHAPES[sel]
+    return dict(op=op, kind=kind, code=(SHAPE_STR[psel] or '') if kind == 0 else '', desc=None, n=n, child=child, rname=rname, eos=SHAPE_STR[esel],
+                ctx=SHAPE_CTX[csel], ptype='string' if psel else None, pval=SHAPE_STR[psel])
+
+
+def _shape(op, bits):
+    sel = 0
+    for i, b in enumerate(bits):        # one fork per selector bit: the decision tree is a complete binary tree
+        if b:
+            sel += 1 << i
+    if sel >= len(SHAPES):
+        return None
+    if not mode.REPLAY:
+        from crosshair.core import realize
+        from crosshair.tracers import NoTracing
+        op = realize(op)
+        with NoTracing():
+            return _op_reply(**_shape_args(op, sel))
+    return _op_reply(**_shape_args(op, sel))
+
+
+def op_shape(op: int, b0: bool, b1: bool, b2: bool, b3: bool, b4: bool, b5: bool, b6: bool, b7: bool, b8: bool) -> Optional[str]:
+    """
+    pre: 0 <= op < len(OPS) and op % NPARTS == PART
+    post: _ is None
+    """
+    return _shape(op, (b0, b1, b2, b3, b4, b5, b6, b7, b8))
+
+
+def op_shape_reach(op: int, b0: bool, b1: bool, b2: bool, b3: bool, b4: bool, b5: bool, b6: bool, b7: bool, b8: bool) -> bool:
+    """
+    pre: 0 <= op < len(OPS) and op % NPARTS == PART
+    post: _
+    """
+    del TAGS[:]
+    r = _shape(op, (b0, b1, b2, b3, b4, b5, b6, b7, b8))
+    return not (r is None and ('ok' in TAGS or 'err' in TAGS))
+
+
+def replay_op_shape(op, **bits):
+    sel = sum(1 << i for i in range(9) if bits.get('b%d' % i))
+    if sel >= len(SHAPES):
+        return False, 'selector outside the shape table'
+    return replay_op_reply(**_shape_args(op, sel))
